@@ -10,6 +10,7 @@ import (
 	"os"
 	"strconv"
 	"strings"
+	"sync"
 	"testing"
 	"time"
 
@@ -382,6 +383,35 @@ func runC19(c C19Case, ev *Evid) (fs []Finding) {
 		} else if err == nil {
 			fs = append(fs, Finding{Property: "C19", Key: "method-accepts-unknown", Detail: fmt.Sprintf("AggregationMethodString(%q) accepted as %v", c.S, got)})
 		}
+	case "concurrent":
+		// the printers and parsers are pure functions: the round trips hold just the same when several goroutines
+		// print and parse DIFFERENT values at the same time (as diff / copy do when both sides are remote)
+		var mu sync.Mutex
+		var wg sync.WaitGroup
+		for g := 0; g < 8; g++ {
+			wg.Add(1)
+			go func(g int) {
+				defer wg.Done()
+				for i := 0; i < 4000; i++ {
+					ts := wt.Timestamp(c.TS + uint32(g)*100003 + uint32(i)*7919)
+					str := ts.String()
+					back, err := wt.ParseTimestamp(str)
+					d := wt.Duration((int64(c.Dur)/2 + int64(g)*15485863 + int64(i)*104729) % math.MaxInt32)
+					ds := d.String()
+					db, derr := wt.ParseDuration(ds)
+					if err != nil || back != ts || derr != nil || db != d {
+						mu.Lock()
+						if len(fs) == 0 {
+							fs = append(fs, Finding{Property: "C19", Key: "concurrent-roundtrip", Detail: fmt.Sprintf("with 8 goroutines printing different values at once: Timestamp(%d).String() = %q parses to (%d, %v); Duration(%d).String() = %q parses to (%d, %v)", ts, str, back, err, d, ds, db, derr)})
+						}
+						mu.Unlock()
+						return
+					}
+				}
+			}(g)
+		}
+		wg.Wait()
+		cls = append(cls, "concurrent-printers")
 	case "durstr":
 		fs = judgeDurString(c.S)
 	case "tsstr":
@@ -699,6 +729,7 @@ func TestC19(t *testing.T) {
 			for m := -1; m <= 10; m++ {
 				out = append(out, C19Case{Kind: "method", M: m})
 			}
+			out = append(out, C19Case{Kind: "concurrent", TS: 1500000000, Dur: 86400}, C19Case{Kind: "concurrent", TS: 4294000000, Dur: 2147480000})
 			// every byte value in the unit position (an unknown unit is an error, whatever the byte)
 			for b := 0; b < 256; b++ {
 				if strings.IndexByte("0123456789", byte(b)) >= 0 {
